@@ -18,7 +18,7 @@ CONFIG = {
     "level_note": ("Byte positions of an edit are sampled (first, last, XML declaration, inside a digest, whitespace, random), "
                    "not enumerated; one fault at a time."),
     "technique": "deterministic simulation: enumeration of manifest/chain faults x commands inside seeded nested histories",
-    "quick": {"runs": 96, "budget_s": 60},
+    "quick": {"runs": 192, "budget_s": 90},
     "thorough": {"runs": 1200, "budget_s": 540},
     "rule": ("one run = one random nested history; one evaluation = one (damaged file, edit, command) triple. Distinct = "
              "(edit kind, command, depth of damaged history below the command root, generation position first/middle/last, "
